@@ -134,47 +134,55 @@ def hasDupKey (key : Nat → Int) : List Nat → Bool
   | [] => false
   | x :: r => r.any (fun y => key y == key x) || hasDupKey key r
 
-/-- `while True: idx = idxs_us_main[idx]; if idx == mv or <stop>: break; pfaf_branch[idx] = v` -/
-def stemFill (usMain : Array Nat) (n : Nat) (stop : Array Int → Nat → Bool) (v : Int) :
-    Nat → Nat → Array Int → Array Int
-  | 0, _, br => br
+/-- `while True: idx = idxs_us_main[idx]; if idx == mv or <stop>: break; pfaf_branch[idx] = v`.
+The stop test `h u x` sees the candidate cell `u` and its current value `x = pfaf_branch[u]`.
+`none` = fuel exhausted (cannot happen when `idxs_us_main` is loop-free; the ops report it as an error). -/
+def stemFill (usMain : Array Nat) (n : Nat) (h : Nat → Int → Bool) (v : Int) :
+    Nat → Nat → Array Int → Option (Array Int)
+  | 0, _, _ => none
   | f+1, idx, br =>
     let u := usMain[idx]!
-    if u ≥ n || stop br u then br else stemFill usMain n stop v f u (br.setIfInBounds u v)
+    if u ≥ n || h u br[u]! then some br else stemFill usMain n h v f u (br.setIfInBounds u v)
 
 /-- state of the worklist loop: `pfaf_branch`, `idxs`, `labs` -/
 abbrev PfSt := Array Int × List Nat × List (Int × Nat)
 
-/-- the `for i, idx in enumerate(idxs_trib0s)` loop; last component = `pfaf_int_ds` -/
+/-- the `for i, idx in enumerate(idxs_trib0s)` loop; extra components = `pfaf_int_ds` and the side
+condition `ok` of theorem `pfaf_partition`: whenever an inter-basin outlet `idx1` is created it is a
+cell of the raster whose current code is 0 or the code of the inter-basin below (`pfaf_int_ds`) —
+i.e. the tributaries really are visited from down- to upstream along the main stem. -/
 def pfInner (ds usMain : Array Nat) (so : Array Int) (depth : Nat) (pfaf0 : Int) (d0 : Nat) :
-    List Nat → Nat → PfSt × Int → PfSt × Int
-  | [], _, st => st
-  | idx :: rest, i, ((br, idxs, labs), intDs) =>
+    List Nat → Nat → PfSt × Int × Bool → Option (PfSt × Int × Bool)
+  | [], _, st => some st
+  | idx :: rest, i, ((br, idxs, labs), intDs, ok) =>
     let n := ds.size
     let idxs := idxs ++ [idx]
     let idx1 := usMain[ds[idx]!]!
     let p : Int := (10 : Int) ^ (depth - d0)
     let sub := pfaf0 + (2 * (i : Int) + 1) * p
-    let br := br.setIfInBounds idx sub
-    let br := stemFill usMain n (fun _ u => so[u]! == 0) sub (n + 1) idx br
-    let labs := if d0 < depth then labs ++ [(sub, d0 + 1)] else labs
-    if idxs.contains idx1 then pfInner ds usMain so depth pfaf0 d0 rest (i + 1) ((br, idxs, labs), intDs)
-    else
-      let idxs := idxs ++ [idx1]
-      let pint := pfaf0 + ((i : Int) + 1) * 2 * p
-      let br := br.setIfInBounds idx1 pint
-      let br := stemFill usMain n (fun b u => b[u]! != intDs) pint (n + 1) idx1 br
-      let labs := if d0 < depth then labs ++ [(pint, d0 + 1)] else labs
-      pfInner ds usMain so depth pfaf0 d0 rest (i + 1) ((br, idxs, labs), pint)
+    match stemFill usMain n (fun u _ => so[u]! == 0) sub (n + 2) idx (br.setIfInBounds idx sub) with
+    | none => none
+    | some br =>
+      let labs := if d0 < depth then labs ++ [(sub, d0 + 1)] else labs
+      if idxs.contains idx1 then
+        pfInner ds usMain so depth pfaf0 d0 rest (i + 1) ((br, idxs, labs), intDs, ok)
+      else
+        let ok := ok && decide (idx1 < n) && (br[idx1]! == 0 || br[idx1]! == intDs)
+        let pint := pfaf0 + ((i : Int) + 1) * 2 * p
+        match stemFill usMain n (fun _ x => x != intDs) pint (n + 2) idx1 (br.setIfInBounds idx1 pint) with
+        | none => none
+        | some br =>
+          let labs := if d0 < depth then labs ++ [(pint, d0 + 1)] else labs
+          pfInner ds usMain so depth pfaf0 d0 rest (i + 1) ((br, idxs ++ [idx1], labs), pint, ok)
 
-/-- `while len(labs) > 0` with fuel; `none` = fuel exhausted. The Bool is the tie flag. -/
+/-- `while len(labs) > 0` with fuel; `none` = fuel exhausted. Flags: (tie, ok). -/
 def pfLoop (ds usMain : Array Nat) (so uparea : Array Int) (trib : List Nat) (depth : Nat) :
-    Nat → PfSt × Bool → Option (PfSt × Bool)
-  | _, ((br, idxs, []), tie) => some ((br, idxs, []), tie)
+    Nat → PfSt × Bool × Bool → Option (PfSt × Bool × Bool)
+  | _, ((br, idxs, []), fl) => some ((br, idxs, []), fl)
   | 0, _ => none
-  | f+1, ((br, idxs, (pfaf0, d0) :: labs), tie) =>
+  | f+1, ((br, idxs, (pfaf0, d0) :: labs), tie, ok) =>
     let idxs0 := trib.filter fun idx => br[idx]! == 0 && br[ds[idx]!]! == pfaf0
-    if idxs0.isEmpty then pfLoop ds usMain so uparea trib depth f ((br, idxs, labs), tie)
+    if idxs0.isEmpty then pfLoop ds usMain so uparea trib depth f ((br, idxs, labs), tie, ok)
     else
       let s1 := sortDesc (fun i => uparea[i]!) idxs0
       let t0 := s1.take 4
@@ -184,8 +192,9 @@ def pfLoop (ds usMain : Array Nat) (so uparea : Array Int) (trib : List Nat) (de
         | a :: b :: _ => uparea[a]! == uparea[b]!
         | _ => false
       let tie := tie || boundary || hasDupKey key2 t0
-      let r := pfInner ds usMain so depth pfaf0 d0 s2 0 ((br, idxs, labs), pfaf0)
-      pfLoop ds usMain so uparea trib depth f (r.1, tie)
+      match pfInner ds usMain so depth pfaf0 d0 s2 0 ((br, idxs, labs), pfaf0, ok) with
+      | none => none
+      | some (st, _, ok) => pfLoop ds usMain so uparea trib depth f (st, tie, ok)
 
 /-- `pfaf0 = 1; for d0 in range(1, depth): pfaf0 += 10**d0` -/
 def pfBase (depth : Nat) : Int :=
@@ -193,37 +202,40 @@ def pfBase (depth : Nat) : Int :=
 
 /-- the `for i, idx in enumerate(idxs_pit)` loop -/
 def pfPits (usMain : Array Nat) (n : Nat) (so : Array Int) (depth : Nat) :
-    List Nat → Nat → PfSt → PfSt
-  | [], _, st => st
+    List Nat → Nat → PfSt → Option PfSt
+  | [], _, st => some st
   | idx :: rest, i, (br, idxs, labs) =>
     let pfaf1 := pfBase depth + ((i : Int) + 1) * (10 : Int) ^ depth
-    let br := br.setIfInBounds idx pfaf1
-    let br := stemFill usMain n (fun _ u => so[u]! == 0) pfaf1 (n + 1) idx br
-    pfPits usMain n so depth rest (i + 1) (br, idxs ++ [idx], labs ++ [(pfaf1, 1)])
+    match stemFill usMain n (fun u _ => so[u]! == 0) pfaf1 (n + 2) idx (br.setIfInBounds idx pfaf1) with
+    | none => none
+    | some br => pfPits usMain n so depth rest (i + 1) (br, idxs ++ [idx], labs ++ [(pfaf1, 1)])
 
 /-- `strord = np.where(strord <= depth + 1, strord, 0)` -/
 def pfStrord (ds : Array Nat) (seq : List Nat) (usMain : Array Nat) (mask : Option (Array Bool))
     (depth : Nat) : Array Int :=
   amap (fun s => if s ≤ (depth : Int) + 1 then s else 0) (streamOrderClassic ds seq usMain mask)
 
-/-- `pfaf_branch`, `idxs`, tie flag after the two loops -/
+/-- `pfaf_branch`, `idxs`, tie flag, side-condition flag after the two loops -/
 def pfBranch (pits : List Nat) (ds : Array Nat) (seq : List Nat) (usMain : Array Nat)
     (uparea : Array Int) (mask : Option (Array Bool)) (depth : Nat) :
-    Option (Array Int × List Nat × Bool) :=
+    Option (Array Int × List Nat × Bool × Bool) :=
   let n := ds.size
   let so := pfStrord ds seq usMain mask depth
   let trib := tributaries ds seq so
-  let st0 := pfPits usMain n so depth pits 0 (Array.replicate n 0, [], [])
-  match pfLoop ds usMain so uparea trib depth (2 * n + pits.length + 2) (st0, false) with
+  match pfPits usMain n so depth pits 0 (Array.replicate n 0, [], []) with
   | none => none
-  | some ((br, idxs, _), tie) => some (br, idxs, tie)
+  | some st0 =>
+    match pfLoop ds usMain so uparea trib depth (2 * n + pits.length + 2)
+        (st0, false, pits.all (fun p => decide (p < n))) with
+    | none => none
+    | some ((br, idxs, _), tie, ok) => some (br, idxs, tie, ok)
 
-/-- returns (codes, outlets, tie flag) -/
+/-- returns (codes, outlets, tie flag, side-condition flag) -/
 def subbasinsPfafstetter (pits : List Nat) (ds : Array Nat) (seq : List Nat) (usMain : Array Nat)
     (uparea : Array Int) (mask : Option (Array Bool)) (depth : Nat) :
-    Option (Array Int × List Nat × Bool) :=
-  (pfBranch pits ds seq usMain uparea mask depth).map fun (br, idxs, tie) =>
-    (amap (fun v => v % (10 : Int) ^ depth) (fillnodataUpstream ds seq br 0), idxs, tie)
+    Option (Array Int × List Nat × Bool × Bool) :=
+  (pfBranch pits ds seq usMain uparea mask depth).map fun (br, idxs, tie, ok) =>
+    (amap (fun v => v % (10 : Int) ^ depth) (fillnodataUpstream ds seq br 0), idxs, tie, ok)
 
 /-- the wrapper's `mask = uparea >= upa_min` (absent when `upa_min is None`) -/
 def pfMask (uparea : Array Int) (upaMin : Option Int) : Option (Array Bool) :=
